@@ -455,3 +455,88 @@ def expand_at(model, f, term, node, names, norm=None):
             if v is not None:
                 term = _subst(term, nm, v)
     return term
+
+
+# ---------------------------------------------------------------------------------------------
+def _is_setlike(t):
+    if not isinstance(t, tuple) or not t:
+        return False
+    if t[0] in ("set",):
+        return True
+    if t[0] == "comp" and t[1] == "set":
+        return True
+    if t[0] == "call" and t[1] in ("builtins.set", "builtins.frozenset", "numpy.setdiff1d_unsorted"):
+        return True
+    if t[0] == "call" and isinstance(t[1], tuple) and t[1][0] == "attr" and t[1][2] in (
+            "difference", "union", "intersection", "symmetric_difference", "keys") and _is_setlike(t[1][1]):
+        return True
+    if t[0] in ("+", "|", "&", "^"):
+        xs = t[1]
+        return any(_is_setlike(x[1] if x[0] == "neg" else x) for x in xs)
+    if t[0] == "neg":
+        return _is_setlike(t[1])
+    return False
+
+
+def unordered_leaks(t, ordered=False):
+    """Sub-terms where a set-valued expression is turned into a sequence without sorting."""
+    out = []
+    if not isinstance(t, tuple) or not t:
+        return out
+    if _is_setlike(t):
+        if not ordered:
+            out.append(t)
+        return out
+    if t[0] == "call":
+        is_sorted = t[1] in ("builtins.sorted", "numpy.sort", "numpy.unique", "numpy.setdiff1d")
+        for a in t[2]:
+            out += unordered_leaks(a, is_sorted)
+        for _, v in t[3]:
+            if isinstance(v, tuple):
+                out += unordered_leaks(v, is_sorted)
+        return out
+    for x in t[1:]:
+        if isinstance(x, tuple):
+            if x and isinstance(x[0], str):
+                out += unordered_leaks(x, False)
+            else:
+                for y in x:
+                    if isinstance(y, tuple):
+                        out += unordered_leaks(y, False)
+    return out
+
+
+def r_order(ctx, f: FunctionInfo, callee_short: str, formal: str, rule="R-ORDER"):
+    """The value bound to an order-sensitive formal (a permutation / axis list) must not derive from
+    the iteration order of a set."""
+    model = ctx.model
+    og = origins(f)
+    N = Normalizer(model, f, inline=False)
+    key = f"{callee_short}.{formal} order-stable"
+    sites = calls_from(model, f, callee_short)
+    if not sites:
+        ctx.ob(rule, f, key, None, f"no call to {callee_short}", required=False)
+        return
+    for c, cal in sites:
+        b = model.bind(c, cal.func)
+        a = b.get(formal)
+        if not isinstance(a, ast.AST):
+            continue
+        names = og.of(a)
+        leaks = []
+        rhs_nodes = [a]
+        for n in walk_no_nested(f.node):
+            if isinstance(n, ast.Assign):
+                for t in n.targets:
+                    if any(isinstance(x, ast.Name) and x.id in names for x in ast.walk(t)):
+                        rhs_nodes.append(n.value)
+        for r in rhs_nodes:
+            for lk in unordered_leaks(N(r)):
+                leaks.append((r, lk))
+        if leaks:
+            r, lk = leaks[0]
+            ctx.ob(rule, f, key, False,
+                   f"`{unparse(r)[:80]}` turns a set into a sequence without sorting and flows into `{formal}` of "
+                   f"{callee_short}: the subsystem order then depends on set iteration order", r)
+        else:
+            ctx.ob(rule, f, key, True, f"no unordered collection flows into `{formal}`", c)
